@@ -9,8 +9,8 @@ from . import contracts
 
 PROPERTY = 'C20'
 LEVEL = 'exploration'
-ALPHABET = "Ab1-=#'*"
-RULE = ("complete sweep of all strings over the alphabet {A b 1 - = # ' *} up "
+ALPHABET = "Ab10-=#'*"
+RULE = ("complete sweep of all strings over the alphabet {A b 1 0 - = # ' *} up "
         "to length 5 (quick) / 7 (thorough), random structured labels "
         "(category, function, gap index, co-index, head mark; literals EMPTY "
         "and --), gf separators - # + /; get_label over every subset of the "
@@ -173,8 +173,8 @@ def check_structured(ctx, rng):
     cat = rng.choice(['NP', 'S', 'VP', 'WHNP', 'ADVP', 'X', 'A1b', '*T*',
                       '*ICH*', 'EMPTY'])
     gf = rng.choice(['--', 'SBJ', 'HD', 'OA', 'TPC', 'mo', 'SB', 'PRD'])
-    gap = rng.choice(['', '', '1', '23'])
-    co = rng.choice(['', '', '2', '17'])
+    gap = rng.choice(['', '', '1', '23', '01'])
+    co = rng.choice(['', '', '2', '17', '01', '007', '0'])
     head = rng.choice(['', '', "'"])
     s = _glue(cat, sep, gf, gap, co, head, always_label=True)
     kw = {} if sep == '-' and rng.random() < 0.5 else {'gf_separator': sep}
@@ -224,8 +224,11 @@ def check_get_label(ctx, rng, subset=None):
     sepv = '-'
     for o in subset:
         if o == 'gf_separator':
-            sepv = rng.choice(['-', '#', '+', ':'])
-            params[o] = sepv
+            # values as the command line delivers them: options_dict turns
+            # digit strings into ints and a missing value into ''
+            raw = rng.choice(['-', '#', '+', ':', 0, 10, '', '0', '::'])
+            sepv = str(raw)
+            params[o] = raw
         else:
             params[o] = True
     case = {'kind': 'get_label', 'label': label, 'edge': edge, 'head': head,
@@ -262,7 +265,7 @@ def check_get_label(ctx, rng, subset=None):
 def shard(ctx):
     Cur.ctx = ctx
     install(ctx.R)
-    L = ctx.pick(6, 8)
+    L = ctx.pick(6, 7)
     i = 0
     total = 0
     for n in range(0, L + 1):
@@ -339,5 +342,5 @@ def replay(ctx, case):
 
 def evidence_extra(tier, m):
     return {'exhaustive': False,
-            'sweeps': 'all strings over the 8-letter alphabet up to length %d'
-            % (6 if tier == 'quick' else 8)}
+            'sweeps': 'all strings over the 9-letter alphabet up to length %d'
+            % (6 if tier == 'quick' else 7)}
